@@ -88,10 +88,12 @@ def display_of(atom: Any) -> Optional[str]:
     return getattr(atom, "name", None)
 
 
-def catalogue_equation(modname: str, attr: str, value: Any) -> tuple[str, str]:
-    """('value' | 'structure' | 'skipped', violation)"""
+def catalogue_equation(modname: str, attr: str, value: Any, text: Any = None) -> tuple[str, str]:
+    """('value' | 'structure' | 'skipped', violation); ``text`` overrides the rendering to judge
+    (C19 passes the text found on the generated page)"""
     from symplyphysics.docs.printer_code import code_str
-    text = code_str(value)
+    if text is None:
+        text = code_str(value)
     if INTERNAL.search(text):
         return "value", f"internal name in the rendering {short(text, 120)}"
     if not isinstance(value, sp.Basic):
